@@ -819,3 +819,55 @@ def gParse : GKind → Str → Option DTVal
 def gCtor (k : GKind) (s : Str) : Option DTVal := gParse k (pyStrip s)
 
 end EPV.Lex
+
+namespace EPV.Lex
+
+/-- `E cast as xs:T` / `E cast as xs:T?` on the atomised operand sequence
+(xpath2/_xpath2_operators.py:372-383): more than one item is XPTY0004, the empty sequence is the empty
+sequence with `?` and XPTY0004 without -/
+def castSeq (ver : Ver) (items : List Atom) (opt : Bool) (t : Target) : Except CErr (Option CVal) :=
+  match items with
+  | [] => if opt then .ok none else .error .XPTY0004
+  | [a] => match cast ver a t with | .ok v => .ok (some v) | .error e => .error e
+  | _ => .error .XPTY0004
+
+/-- `E castable as xs:T(?)` never raises: false where the cast would -/
+def castableSeq (ver : Ver) (items : List Atom) (opt : Bool) (t : Target) : Bool := (castSeq ver items opt t).toBool
+
+/-- the constructor function `xs:T(E)` (xpath_tokens/contructors.py:48-66): the empty sequence for an empty
+argument, i.e. `E cast as xs:T?` -/
+def ctorFn (ver : Ver) (items : List Atom) (t : Target) : Except CErr (Option CVal) := castSeq ver items true t
+
+end EPV.Lex
+
+/-! ## xs:language — datatypes/string.py `Language.pattern = ^[a-zA-Z]{1,8}(-[a-zA-Z0-9]{1,8})*$`,
+`Language.__new__`: collapse, then the pattern -/
+namespace EPV.Lex
+
+def isAlpha (c : Char) : Bool := ('a' ≤ c && c ≤ 'z') || ('A' ≤ c && c ≤ 'Z')
+def isAlnum (c : Char) : Bool := isAlpha c || isDigit c
+
+/-- `(-[a-zA-Z0-9]{1,8})*$` -/
+def langTail (s : Str) : Bool :=
+  match s with
+  | [] => true
+  | c :: r =>
+    if c == '-' then
+      let part := r.takeWhile isAlnum
+      (decide (1 ≤ part.length) && decide (part.length ≤ 8)) && langTail (r.dropWhile isAlnum)
+    else false
+termination_by s.length
+decreasing_by
+  simp only [List.length_cons]
+  have := (List.dropWhile_sublist (l := r) isAlnum).length_le
+  omega
+
+/-- the whole pattern on a collapsed string -/
+def matchLanguage (s : Str) : Bool :=
+  let part := s.takeWhile isAlpha
+  (decide (1 ≤ part.length) && decide (part.length ≤ 8)) && langTail (s.dropWhile isAlpha)
+
+/-- `Language(s)` succeeds (the value is the collapsed string) -/
+def langCtor (s : Str) : Option Str := if matchLanguage (collapse s) then some (collapse s) else none
+
+end EPV.Lex
